@@ -535,10 +535,37 @@ pub fn excwalk_session(rep: &mut Report, check: &str, seed: u64, verbose: bool) 
     let nsteps = 40 + rng.below(200);
     let mut bad = false;
     let mut maxdepth = 0;
+    // vectors whose table entries are maintained during the walk (installed through the MES
+    // set_handler call, rewritten by plain stores) - entry must always follow the table in memory
+    let hot: Vec<u8> = (0..3).map(|_| 1 + rng.below(63) as u8).collect();
+    let mut maintained = [0u8; 64];
     for step in 0..nsteps {
         let before = sess.regs();
         let choice = rng.below(10);
         let depth = shadow.len();
+        if rng.chance(1, 4) {
+            let v = *rng.pick(&hot);
+            let dram = rng.chance(1, 2);
+            let a = code_at(&mut rng, dram);
+            if rng.chance(1, 2) {
+                // the guest installs a handler through the system call (not judged here: C14's subject)
+                let argp = 0xffbf40 + 8 * rng.below(16) as u32;
+                sess.poke32(argp, v as u32);
+                sess.poke32(argp + 4, a);
+                let mut s2 = before.clone();
+                s2.er[0] = 113;
+                s2.er[1] = argp;
+                sess.set_regs(&s2);
+                sess.load(s2.pc, &[0x57, 0x00]);
+                let _ = sess.act(Action::Step);
+                sess.set_regs(&before);
+                maintained[v as usize] |= 1;
+            } else {
+                // the guest rewrites the table entry with an ordinary store
+                sess.poke32(4 * v as u32, a | ((rng.u8() as u32) << 24));
+                maintained[v as usize] |= 2;
+            }
+        }
         if (choice < 4 && depth < 32) || depth == 0 {
             // entry: interrupt or TRAPA; "handler/main effects" = random register and flag changes first
             let mut s = before.clone();
@@ -552,7 +579,8 @@ pub fn excwalk_session(rep: &mut Report, check: &str, seed: u64, verbose: bool) 
             if irq {
                 s.ccr &= !I; // the program (or an RTE frame) has interrupts enabled here
                 sess.set_regs(&s);
-                let v = 1 + rng.below(63) as u8;
+                let v = if rng.chance(1, 2) { *rng.pick(&hot) } else { 1 + rng.below(63) as u8 };
+                rep.cell("walk-vector-maintenance", &[maintained[v as usize] as u64]);
                 let obs = sess.act(Action::Interrupt(v));
                 let c = Case { pc: s.pc, code: vec![], er: s.er, ccr: s.ccr, patches: vec![], pending: vec![] };
                 let nf = rep.findings.len();
